@@ -272,11 +272,12 @@ class Check:
         """Units whose content is dumped from the live module (constant tables, enums, signatures):
         run the unit's dumper script under the repo's interpreter."""
         env = self.impl_env()
-        rc, out = sh([PY, os.path.join(VERIF, "tools", unit["dumper"])] + unit.get("args", []),
-                     timeout=300, env=env)
-        if rc != 0:
-            raise RuntimeError("dumper failed: " + out[-1500:])
-        return out
+        p = subprocess.run([PY, "-W", "ignore", os.path.join(VERIF, "tools", unit["dumper"])] + unit.get("args", []),
+                           timeout=300, env=env, stdout=subprocess.PIPE, stderr=subprocess.PIPE,
+                           universal_newlines=True)
+        if p.returncode != 0 or not p.stdout.strip():
+            raise RuntimeError("dumper failed: " + p.stderr[-1500:])
+        return p.stdout
 
     # ---------------------------------------------------------------- proofs
     def ensure_makefile(self):
